@@ -201,7 +201,7 @@ func aliasCheck(x, y, z interval.IntRange) bool {
 
 func main() {
 	B := flag.Int64("B", 4, "finite bounds range over -B..B")
-	lift := flag.String("lift", "none", "none|translate|scale|box|rshbig")
+	lift := flag.String("lift", "none", "none|translate|scale|scaledividend|box|rshbig|sparse")
 	k := flag.Uint("k", 0, "exponent for scale/box")
 	k2 := flag.Uint("k2", 0, "second exponent for scale (Y of mul)")
 	cs := flag.String("c", "0", "translation of X (decimal)")
@@ -274,6 +274,19 @@ func main() {
 							trY = func(lo bool, b *big.Int) *big.Int { return b.Add(b, kk) }
 							applied = true
 						}
+					}
+				case "scaledividend":
+					// IntervalLift!LawScale, dividend-only clause: X with even (or infinite) bounds scaled by 2^k,
+					// Y finite inside -2..2: the exact hull scales by 2^k as well.
+					even := func(f bool, v int64) bool { return !f || v%2 == 0 }
+					if op == "quo" && even(xv.lf, xv.lo) && even(xv.hf, xv.hi) && yv.lf && yv.hf && yv.lo >= -2 && yv.hi <= 2 {
+						e := *k
+						trX = func(lo bool, b *big.Int) *big.Int { return b.Lsh(b, e) }
+						untr = func(lo bool, b *big.Int) (*big.Int, bool) {
+							m := new(big.Int).Mod(b, pow2(e))
+							return b.Rsh(b, e), m.Sign() == 0
+						}
+						applied = true
 					}
 				case "box":
 					if op == "and" || op == "or" {
